@@ -333,6 +333,7 @@ func delimsStream(r *Run) {
 	// an earlier call selected. Implementation only (the model has no history of configuration calls).
 	if r.Shard == 0 {
 		delimsTwiceFamily(r)
+		delimsOverlapFamily(r)
 	}
 	// 3b. delimiters that contain a hyphen, or end in / begin with the characters an expression may start with:
 	// the hyphen next to a delimiter is found by POSITION (delimiter length), never by stripping characters
